@@ -96,6 +96,20 @@ pub struct Fiber {
   backtrace_ips: UniqueVector<*const u8, Header>,
 }
 
+#[cfg(laythe_verif)]
+impl Fiber {
+  /// verification hook: (operand depth above the frame's slot 0, active handlers, frames,
+  /// slots left before the end of the reserved stack)
+  pub fn verif_probe(&self) -> (isize, usize, usize, isize) {
+    unsafe {
+      let depth = self.stack_top.offset_from(self.stack_start());
+      let end = self.stack.as_ptr().add(self.stack.cap());
+      let left = end.offset_from(self.stack_top as *const Value);
+      (depth, self.exception_handlers.len(), self.frames.len(), left)
+    }
+  }
+}
+
 impl Fiber {
   /// Create a new fiber from the provided closure. The fiber uses
   /// this initial closure to determine how much stack space to initially
